@@ -135,14 +135,16 @@ impl SourceMapHermes {
         let (sm, mapping) = sm.rewrite_with_mapping(options)?;
 
         if function_maps.len() >= mapping.len() {
+            // A source without an entry (the metadata may list fewer entries than there are
+            // sources) simply has no function map.
             function_maps = mapping
                 .iter()
-                .map(|idx| function_maps[*idx as usize].take())
+                .map(|idx| function_maps.get_mut(*idx as usize).and_then(Option::take))
                 .collect();
             raw_facebook_sources = raw_facebook_sources.map(|mut sources| {
                 mapping
                     .into_iter()
-                    .map(|idx| sources[idx as usize].take())
+                    .map(|idx| sources.get_mut(idx as usize).and_then(Option::take))
                     .collect()
             });
         }
